@@ -1011,6 +1011,13 @@ def delete_unreachable_code(source: str) -> str:
         try:
             test_value = core.literal_value(node.test)
         except ValueError:
+            # Either block may run, and what follows a return or raise in it never does
+            for unreachable_node in _iter_unreachable_nodes(node.body):
+                yield unreachable_node, None, transaction
+            for unreachable_node in _iter_unreachable_nodes(node.orelse):
+                yield unreachable_node, None, transaction
+
+            transaction += 1
             continue
 
         if isinstance(node, ast.While) and not test_value:
